@@ -17,7 +17,7 @@ INFO = {
                "are balanced on every non-error path; (d) a row is the printed text of Context::build() followed by "
                "the row separator, in one write. Every Clone impl of the data types (options, values) is field-wise; Context::build is the object of the selections whenever there are selections. The JSON number constructor handed on as a function value (`.map(JsonValue::from)`) is judged on the payload it is applied to.",
     "not_decided": "Shortest-round-trip digits of doubles (trusted: Display for f64), byte-for-byte equality of a "
-                   "second run as a run-time statement, and the separator guard beyond the sizes 1..3 it is "
+                   "second run as a run-time statement, and the separator guard beyond the sizes 1..6 (1..12 in the thorough tier) it is "
                    "evaluated for.",
     "trusted": ["sa/tables/rfc8259.toml", "sa/tables/arithmetic.toml", "core::fmt formatting of {} / {:04x} as "
                 "emulated in sa/rules/printer_rules.render", "Display for f64 prints finite doubles as JSON numbers"],
